@@ -55,6 +55,7 @@ def make_mw(name):
 
 def build_app(stack, rnd_blob):
     from clastic import Application, Route, Response, render_basic, render_json
+    from werkzeug.wrappers import BaseResponse
     from clastic import errors
 
     def boom():
@@ -71,6 +72,13 @@ def build_app(stack, rnd_blob):
         Route('/html', lambda: Response('<html><body>' + 'é☃ ' * 500 + '</body></html>', mimetype='text/html')),
         Route('/ctx', lambda: {'a': 1, 'b': ['x', 'y'], 'text': 'z' * 3000}, render_basic),
         Route('/json', lambda: {'k': list(range(300))}, render_json),
+        # responses that are not werkzeug's full Response: the bare base class (no header mix-ins), and nothing at all
+        Route('/base', lambda: BaseResponse('bare base response ' * 40, mimetype='text/plain')),
+        Route('/base201', lambda: BaseResponse('created', status=201, headers={'Location': 'http://verif.test/new'})),
+        Route('/noresp', lambda: None),
+        # rendered contexts whose keys are not ordinary identifiers (integer keys, names the framework reserves elsewhere)
+        Route('/ctxkeys', lambda: {'next': '/page/2', 'self': '/page/1', 'context': 'c', 'request': 'r', 'a b': 1, '': 0}, render_basic),
+        Route('/ctxint', lambda: {1: 'one', 2: 'two'}, render_basic),
         Route('/branch/', lambda: Response('branch')),
         Route('/raise403', lambda: (_ for _ in ()).throw(errors.Forbidden('no entry'))),
         Route('/return404', lambda: errors.NotFound('gone fishing')),
@@ -92,6 +100,8 @@ def build_app(stack, rnd_blob):
 REQUESTS = [
     ('text', 'GET', '/text', b''), ('text', 'GET', '/empty', b''), ('text', 'GET', '/big', b''), ('text', 'GET', '/bigbin', b''),
     ('text', 'GET', '/binary', b''), ('text', 'GET', '/html', b''), ('rendered', 'GET', '/ctx', b''), ('rendered', 'GET', '/json', b''),
+    ('bare-base', 'GET', '/base', b''), ('bare-base', 'GET', '/base201', b''), ('500', 'GET', '/noresp', b''),
+    ('rendered', 'GET', '/ctxkeys', b''), ('rendered', 'GET', '/ctxint', b''),
     ('redirect', 'GET', '/branch', b''), ('redirect', 'GET', '/redirect301', b''), ('http-raised', 'GET', '/raise403', b''),
     ('http-returned', 'GET', '/return404', b''), ('http-raised', 'GET', '/raise503', b''), ('http-returned', 'GET', '/return418', b''),
     ('http-returned', 'GET', '/return503', b''), ('http-returned', 'POST', '/return502', b''),
@@ -118,7 +128,12 @@ def decoded(ex):
     return body, None
 
 
-def exchange(app, method, path, body, ae, accept=None):
+# query strings: none of them carries the profiler's trigger parameter (_prof)
+QUERIES = ['unused_q=7', 'unused_q=7', '', 'unused_q=7&_prof_sort=calls', '_prof_sort=', '_prof_sort=newest&unused_q=1', '_prof_sort=time',
+           'page=2&sort=newest', 'unused_q=%FF', 'unused_q=1&unused_q=2', '_profile=1', 'unused_q=', 'callback=cb&unused_q=x', '_prof_limit=abc']
+
+
+def exchange(app, method, path, body, ae, accept=None, query='unused_q=7'):
     h = {}
     if ae is not None:
         h['Accept-Encoding'] = ae
@@ -126,7 +141,7 @@ def exchange(app, method, path, body, ae, accept=None):
         h['Accept'] = accept
     if method == 'POST':
         h['Content-Type'] = 'application/x-www-form-urlencoded'
-    return probe.request(app, method, path, 'unused_q=7', headers=h, body=body)
+    return probe.request(app, method, path, query, headers=h, body=body)
 
 
 def accepts_gzip(ae):
@@ -158,17 +173,18 @@ def judge_stack(sh, rng, stack, blob, requests, record=True):
     for kind, method, path, body in requests:
         ae = rng.pick(AE) if 'gzip' in stack else rng.pick([None, None, 'gzip'])
         accept = rng.pick([None, None, 'text/html', 'application/json'])
+        query = rng.pick(QUERIES)
         for m in ([method, 'HEAD'] if method == 'GET' and rng.chance(0.35) else [method]):
-            a = exchange(plain, m, path, body, ae, accept)
-            b = exchange(mwapp, m, path, body, ae, accept)
-            case = {'stack': stack, 'req': [kind, m, path, body.decode('latin-1'), ae, accept]}
+            a = exchange(plain, m, path, body, ae, accept, query)
+            b = exchange(mwapp, m, path, body, ae, accept, query)
+            case = {'stack': stack, 'req': [kind, m, path, body.decode('latin-1'), ae, accept, query]}
             if record:
                 sh.case(case, nontrivial=bool(stack), klass='%s:%s' % ('+'.join(stack) if len(stack) == 1 else '%d-stack' % len(stack), kind))
             sh.hit('kind:' + kind)
             sh.hit('pairs-compared')
             if m == 'HEAD':
                 sh.hit('head-compared')
-            brief = '%s %s [stack %s, Accept-Encoding %r, Accept %r]' % (m, path, '+'.join(stack), ae, accept)
+            brief = '%s %s?%s [stack %s, Accept-Encoding %r, Accept %r]' % (m, path, query, '+'.join(stack), ae, accept)
             if a.exc is not None:
                 raise RuntimeError('scenario application without middlewares failed: %r' % a.exc)
             if b.exc is not None:
@@ -206,7 +222,8 @@ def judge_stack(sh, rng, stack, blob, requests, record=True):
                         # compressing: caches must be told (error responses are HTTPExceptions, which the middleware
                         # passes through untouched, as are the slash redirects the dispatcher issues before any middleware
                         # runs - both left open)
-                        if b.status < 300:
+                        # ... as are bare BaseResponse objects, which lack the header mix-ins the middleware works through
+                        if b.status < 300 and kind != 'bare-base':
                             vary = ','.join(b.header_all('Vary')).lower()
                             if 'accept-encoding' not in vary:
                                 sh.violation('C15/gzip-vary', '%s: gzip-accepting client, body left uncompressed, no Vary: Accept-Encoding (%r)'
@@ -250,10 +267,13 @@ def run_shard(sh, spec):
 def replay(sh, case, spec):
     rng = Rng(0, 'replay')
     blob = bytes(rng.getrandbits(8) for _ in range(60000))
-    kind, m, path, body, ae, accept = case['req']
+    kind, m, path, body, ae, accept = case['req'][:6]
+    query = case['req'][6] if len(case['req']) > 6 else 'unused_q=7'
 
     class Fixed(object):
         def pick(self, seq):
+            if seq is QUERIES:
+                return query
             if seq and seq[0] is None and 'gzip' in seq:
                 return ae
             if seq and seq[0] is None:
